@@ -151,12 +151,137 @@ func (l *Gpos5_1) apply(ctx *Context, a, b int) int {
 	return -1
 }
 
-// encode implements the [Subtable] interface.
-func (l *Gpos5_1) encode() []byte {
-	panic("not implemented")
+func (l *Gpos5_1) countMarkClasses() int {
+	for _, lig := range l.LigArray {
+		for _, row := range lig {
+			return len(row)
+		}
+	}
+
+	var maxClass uint16
+	for _, rec := range l.MarkArray {
+		if rec.Class > maxClass {
+			maxClass = rec.Class
+		}
+	}
+	return int(maxClass) + 1
+}
+
+// ligAttachLen returns the length of the LigatureAttach table for one
+// ligature glyph.
+func (l *Gpos5_1) ligAttachLen(lig [][]anchor.Table, markClassCount int) int {
+	total := 2 + 2*len(lig)*markClassCount
+	for _, row := range lig {
+		for k := 0; k < markClassCount && k < len(row); k++ {
+			if !row[k].IsEmpty() {
+				total += 6
+			}
+		}
+	}
+	return total
 }
 
 // encodeLen implements the [Subtable] interface.
 func (l *Gpos5_1) encodeLen() int {
-	panic("not implemented")
+	markClassCount := l.countMarkClasses()
+
+	total := 12
+	total += l.MarkCov.EncodeLen()
+	total += l.LigCov.EncodeLen()
+	total += 2 + (4+6)*len(l.MarkArray)
+	total += 2 + 2*len(l.LigArray)
+	for _, lig := range l.LigArray {
+		total += l.ligAttachLen(lig, markClassCount)
+	}
+	return total
+}
+
+// encode implements the [Subtable] interface.
+func (l *Gpos5_1) encode() []byte {
+	markCount := len(l.MarkArray)
+	markClassCount := l.countMarkClasses()
+	ligCount := len(l.LigArray)
+
+	total := 12
+	markCoverageOffset := total
+	total += l.MarkCov.EncodeLen()
+	ligCoverageOffset := total
+	total += l.LigCov.EncodeLen()
+	markArrayOffset := total
+	total += 2 + (4+6)*markCount
+	ligArrayOffset := total
+	total += 2 + 2*ligCount
+	for _, lig := range l.LigArray {
+		total += l.ligAttachLen(lig, markClassCount)
+	}
+	res := make([]byte, 0, total)
+
+	res = append(res,
+		0, 1, // posFormat
+		byte(offs16(markCoverageOffset)>>8), byte(markCoverageOffset),
+		byte(offs16(ligCoverageOffset)>>8), byte(ligCoverageOffset),
+		byte(offs16(markClassCount)>>8), byte(markClassCount),
+		byte(offs16(markArrayOffset)>>8), byte(markArrayOffset),
+		byte(offs16(ligArrayOffset)>>8), byte(ligArrayOffset),
+	)
+
+	res = append(res, l.MarkCov.Encode()...)
+	res = append(res, l.LigCov.Encode()...)
+
+	res = append(res,
+		byte(markCount>>8), byte(markCount),
+	)
+	offs := 2 + 4*markCount
+	for _, rec := range l.MarkArray {
+		res = append(res,
+			byte(rec.Class>>8), byte(rec.Class),
+			byte(offs16(offs)>>8), byte(offs),
+		)
+		offs += 6
+	}
+	for _, rec := range l.MarkArray {
+		res = rec.Append(res)
+	}
+
+	// LigatureArray table
+	res = append(res,
+		byte(ligCount>>8), byte(ligCount),
+	)
+	offs = 2 + 2*ligCount
+	for _, lig := range l.LigArray {
+		res = append(res,
+			byte(offs16(offs)>>8), byte(offs),
+		)
+		offs += l.ligAttachLen(lig, markClassCount)
+	}
+
+	// LigatureAttach tables
+	for _, lig := range l.LigArray {
+		componentCount := len(lig)
+		res = append(res,
+			byte(offs16(componentCount)>>8), byte(componentCount),
+		)
+		offs = 2 + 2*componentCount*markClassCount
+		for _, row := range lig {
+			for k := 0; k < markClassCount; k++ {
+				if k >= len(row) || row[k].IsEmpty() {
+					res = append(res, 0, 0)
+					continue
+				}
+				res = append(res,
+					byte(offs16(offs)>>8), byte(offs),
+				)
+				offs += 6
+			}
+		}
+		for _, row := range lig {
+			for k := 0; k < markClassCount && k < len(row); k++ {
+				if !row[k].IsEmpty() {
+					res = row[k].Append(res)
+				}
+			}
+		}
+	}
+
+	return res
 }
